@@ -168,3 +168,44 @@ Definition server_ops (mws : list (Z * (list op * list op))) (h : list op) (err 
    end)%list.
 Definition serve mws h err : bw := run (server_ops mws h err).
 
+
+(* ---- server_class.go / server_group.go / server_middleware.go / server_handler.go: registration.
+   A Server holds a middleware stack.  middleware() appends an entry to the RECEIVER's stack;
+   group() creates a new Server whose stack starts as a copy of the parent's stack at that moment
+   (NewServerClassFromGroup: append([]middlewareEntry{}, server.middlewares...)); registering a
+   route wraps the handler with the receiver's stack as it is then (applyMiddlewares copies before
+   sorting).  Go slices are modelled as immutable list values: sharing of a backing array between a
+   parent and its groups would NOT be this model, and the correspondence check would see it.
+   Servers are numbered in creation order (0 = the root), entries in registration order. *)
+Inductive rop := RMw (t : nat) (p : Z) | RGroup (t : nat) | RRoute (t : nat).
+Record rstate := { stacks : list (list entry); routes : list (list entry); nextid : nat }.
+Definition rinit : rstate := {| stacks := [[]]; routes := []; nextid := 0 |}.
+Fixpoint set_nth {A} (i : nat) (x : A) (l : list A) {struct l} : list A :=
+  match l, i with
+  | [], _ => []
+  | _ :: r, O => x :: r
+  | y :: r, S j => y :: set_nth j x r
+  end.
+Definition rstep (s : rstate) (o : rop) : rstate :=
+  match o with
+  | RMw t p =>
+      match nth_error (stacks s) t with
+      | Some st => {| stacks := set_nth t (st ++ [{| prio := p; ident := nextid s |}])%list (stacks s);
+                      routes := routes s; nextid := S (nextid s) |}
+      | None => s
+      end
+  | RGroup t =>
+      match nth_error (stacks s) t with
+      | Some st => {| stacks := (stacks s ++ [st])%list; routes := routes s; nextid := nextid s |}
+      | None => s
+      end
+  | RRoute t =>
+      match nth_error (stacks s) t with
+      | Some st => {| stacks := stacks s; routes := (routes s ++ [st])%list; nextid := nextid s |}
+      | None => s
+      end
+  end.
+Definition rrun (h : list rop) : rstate := fold_left rstep h rinit.
+(* what serving route r produces (each layer and the handler emit one event) *)
+Definition route_trace (s : rstate) (r : nat) : option handler :=
+  match nth_error (routes s) r with Some st => Some (apply_middlewares [Final] st) | None => None end.
